@@ -190,7 +190,10 @@ pub fn history(ctx: &mut Ctx, idx: u64) {
     let mut announced: Vec<usize> = Vec::new();
     let mut expected_channel: Vec<InstanceInformation> = Vec::new();
     let steps = r.usize(npeers, npeers + 8);
-    let ttl = 4500;
+    // one history in sixteen announces with a TTL of one second (what is announced is still valid when the history is read back a
+    // few hundred microseconds later; a history that took longer than 0.4 s is not judged)
+    let ttl = if idx % 16 == 5 { 1 } else { 4500 };
+    let t_start = std::time::Instant::now();
     let on_wire: std::cell::RefCell<Vec<ResourceRecord<'static>>> = std::cell::RefCell::new(Vec::new());
     let case_log = |log: &Vec<String>| json!({"family": "history", "idx": idx, "service": service_s, "mode": mode, "steps": log});
     for step in 0..steps {
@@ -405,6 +408,9 @@ pub fn history(ctx: &mut Ctx, idx: u64) {
         }
     }
     // read back what discovery would report
+    if ttl == 1 {
+        ctx.count("histories_announced_with_a_ttl_of_one_second");
+    }
     let discovered: Result<Vec<InstanceInformation>, _> = monitor::guard(|| {
         store.get_domain_resources(&service, DomainResourceFilter::cached()).filter_map(|g| from_records(&service, g)).collect()
     });
@@ -418,6 +424,10 @@ pub fn history(ctx: &mut Ctx, idx: u64) {
             return;
         }
     };
+    if ttl == 1 && t_start.elapsed() > std::time::Duration::from_millis(400) {
+        ctx.count("one_second_histories_too_slow_to_judge");
+        return;
+    }
     let want: Vec<InstanceInformation> = announced.iter().map(|k| peers[*k].info(7)).collect();
     let show = |v: &Vec<InstanceInformation>| v.iter().map(|i| format!("{:?}", i)).collect::<Vec<_>>();
     for d in &discovered {
